@@ -119,9 +119,13 @@ def Sel.key : Sel → String
   | .field a n _ _ _ => if a.isEmpty then n else a
   | .inline .. => ""
 
+/-- one resolver invocation.  `node` and `field` are what the harness logs; `ty` (the static container type the
+selection was resolved against) and `args` (the arguments as written) are carried for the theorems only. -/
 structure Call where
   node : Nat
   field : String
+  ty : String := ""
+  args : List ArgVal := []
   deriving Repr, Inhabited, DecidableEq
 
 structure Cfg where
@@ -248,7 +252,7 @@ def rSel (env : Env) (node : Nat) (ty : String) (d : Nat) (res : List (String ×
         (setKey res key .null, { errs := skipErrs ++ prefixErrs (.key key) formErrs })
       else
         let fr : FieldRes := fetch env.graph node name
-        let call : Call := ⟨node, name⟩
+        let call : Call := ⟨node, name, ty, args⟩
         let resolverErrs : List Err := List.replicate fr.errs ⟨[], .resolver⟩
         let (fv, acc) := complete env.schema env.graph (fun n t d' => if sels.isEmpty then (.obj [], { errs := [⟨[], .noSelection⟩] }) else let r := rSels env n t d' [] sels; (.obj r.1, r.2)) fd.type fr.val d
         let fv := if fr.errs > 0 && !env.cfg.keepValueOnError then J.null else fv
